@@ -514,10 +514,11 @@ impl Gen {
                 } else {
                     let mi = self.r.below(self.sw.metas.len());
                     let meta = self.sw.metas[mi].clone();
-                    let n = self.r.range(1, 3);
+                    let n = self.r.range(1, 4);
                     let voices: Vec<VoiceRef> = (0..n).map(|_| VoiceRef::Gen(VoiceSpec { meta: meta.clone(), body: self.sw.bodies[mi * 4 + self.r.below(4)] })).collect();
                     let mutate = if n >= 2 && mode >= 3 {
-                        let pos = self.r.range(1, n - 1);
+                        // any position, including the first voice (then every other voice differs from it)
+                        let pos = self.r.below(n);
                         let si = self.r.below(meta.nstreams);
                         let f = match self.r.below(10) {
                             0 => MetaField::SamplingRate,
@@ -531,7 +532,7 @@ impl Gen {
                             8 => MetaField::UseGv(si),
                             _ => MetaField::Option(si),
                         };
-                        Some((pos, f))
+                        Some((pos, f, self.r.below(3) as u8))
                     } else {
                         None
                     };
